@@ -61,7 +61,7 @@ def case_s(draw) -> dict[str, Any]:
                                                                          "tags": st.none(), "exc": st.just(False)}), min_size=n, max_size=n))
     mode = draw(st.sampled_from(["forward", "reverse", "reverse-from", "offset", "tail", "head"]))
     k = draw(st.one_of(st.sampled_from([0, 1, max(0, n - 1), n, n + 1, 100]), st.integers(0, max(1, n + 2))))
-    return {"records": recs, "file_level": draw(st.sampled_from([10, 5])), "container": draw(st.sampled_from(["zst", "gz", "plain", "noprio", "stdin"])),
+    return {"records": recs, "file_level": draw(st.sampled_from([10, 5])), "container": draw(st.sampled_from(["zst", "gz", "plain", "noprio", "stdin", "gz-multi"])),
             "mode": mode, "k": k, "prio": draw(st.integers(0, 8)), "via": draw(st.sampled_from(["reader", "reader", "hr"])),
             "no_final_newline": draw(st.integers(0, 3)) == 0}
 
@@ -128,6 +128,12 @@ def make_container(kind: str, zst: Path, d: Path, no_final_newline: bool = False
         with gzip.open(p, "wb") as f:
             f.write(raw)
         return p
+    if kind == "gz-multi":
+        # two gzip members one after the other (cat a.gz b.gz, a rotated log): one log
+        p = d / "log.json.gz"
+        cut = raw.find(b"\n", len(raw) // 2) + 1
+        p.write_bytes(gzip.compress(raw[:cut]) + gzip.compress(raw[cut:]))
+        return p
     if kind in ("plain", "stdin"):
         p = d / "log.json"
         p.write_bytes(raw)
@@ -184,8 +190,66 @@ def expand_burst(case: dict[str, Any]) -> dict[str, Any]:
     return {**{k: v for k, v in case.items() if k not in ("burst", "salt")}, "records": recs}
 
 
+@st.composite
+def two_logs_s(draw) -> dict[str, Any]:
+    """Two log files open at the same time in one process (a session log and a per-scan log, two command objects): a program of
+    open/log/close steps over the logs a and b in which both are open together for a while."""
+    na, nb = draw(st.integers(0, 12)), draw(st.integers(1, 12))
+    steps: list[list[Any]] = [["open", "a"]]
+    for i in range(draw(st.integers(0, na))):
+        steps.append(["log", "a", f"a-{i}-{draw(st.text(max_size=6))}"])
+    steps.append(["open", "b"])
+    seq = ["a"] * na + ["b"] * nb
+    seq = draw(st.permutations(seq))
+    for i, nm in enumerate(seq):
+        steps.append(["log", nm, f"{nm}-both-{i}-{draw(st.text(max_size=6))}"])
+    first = draw(st.sampled_from(["a", "b"]))
+    second = "b" if first == "a" else "a"
+    steps.append(["close", first])
+    for i in range(draw(st.integers(0, 5))):
+        steps.append(["log", second, f"{second}-alone-{i}"])
+    steps.append(["close", second])
+    return {"kind": "two-logs", "steps": steps}
+
+
+def check_two_logs(case: dict[str, Any]) -> list[tuple[str, str]]:
+    import json
+    import subprocess
+
+    from gallia.log import PenlogReader
+
+    d = Path(tempfile.mkdtemp(prefix="vf-c17t."))
+    try:
+        (d / "case.json").write_text(json.dumps(case))
+        try:
+            p = subprocess.run([sys.executable, "-m", "vf.c17_child", str(d / "case.json"), str(d)], capture_output=True, text=True, timeout=120)
+        except subprocess.TimeoutExpired:
+            w = json.loads((d / "written.json").read_text()) if (d / "written.json").exists() else {}
+            sofar = {k: len(v) for k, v in w.items()}
+            return [("C17/two-logs-open/blocks", f"steps {case['steps'][:6]}..: the process did not finish within 120 s (written so far: {sofar})")]
+        if p.returncode != 0 or not (d / "done").exists():
+            return [("C17/two-logs-open/raises", f"steps {case['steps'][:6]}..: rc={p.returncode} {p.stderr[-300:]}")]
+        written = json.loads((d / "written.json").read_text())
+        for nm in ("a", "b"):
+            try:
+                with PenlogReader(d / f"{nm}.json.zst") as rd:
+                    got = [r.data for r in rd.records()]
+            except Exception as e:  # noqa: BLE001
+                return [(f"C17/two-logs-open/log-unreadable/{type(e).__name__}", f"log {nm} of steps {case['steps'][:6]}..: {type(e).__name__}: {e}")]
+            if got != written[nm]:
+                return [("C17/two-logs-open/log-differs", f"log {nm}: wrote {len(written[nm])} records {written[nm][:4]}.., read {len(got)} {got[:4]}..")]
+            if "Traceback" in p.stderr or "Error" in p.stderr:
+                return [("C17/two-logs-open/errors-on-stderr", f"steps {case['steps'][:6]}..: {p.stderr[-300:]}")]
+        return []
+    finally:
+        shutil.rmtree(d, ignore_errors=True)
+
+
 def check(case: dict[str, Any]) -> list[tuple[str, str]]:
     from gallia.log import PenlogPriority, PenlogReader
+
+    if case.get("kind") == "two-logs":
+        return check_two_logs(case)
 
     case = expand_burst(case)
     out: list[tuple[str, str]] = []
@@ -300,6 +364,8 @@ def check(case: dict[str, Any]) -> list[tuple[str, str]]:
 
 
 def nontrivial(case: dict[str, Any]) -> bool:
+    if case.get("kind") == "two-logs":
+        return True
     n = sum(1 for r in case["records"] if r["level"] >= case["file_level"])
     removes = any(PRIO[r["level"]] > case["prio"] for r in case["records"] if r["level"] >= case["file_level"])
     return n >= 2 and (case["mode"] != "forward" or removes)
@@ -307,12 +373,23 @@ def nontrivial(case: dict[str, Any]) -> bool:
 
 def shards(tier: str) -> list[dict[str, Any]]:
     if tier == "quick":
-        return [{"n": 260} for _ in range(15)] + [{"burst": [3000, 20000]}]
-    return [{"n": 6000} for _ in range(14)] + [{"burst": [1025, 2500, 20000, 60000]}, {"burst": [5000, 40000, 100000]}]
+        return [{"n": 260} for _ in range(14)] + [{"two": 24}, {"burst": [3000, 20000]}]
+    return [{"n": 6000} for _ in range(12)] + [{"two": 400}, {"two": 400}, {"burst": [1025, 2500, 20000, 60000]}, {"burst": [5000, 40000, 100000]}]
 
 
 def run_shard(spec: dict[str, Any], seed: int) -> Collector:
     col = Collector()
+
+    def body_two(case: dict[str, Any]) -> None:
+        res = check(case)
+        col.case(str(case["steps"]), True, cls="two-logs-open/" + ("b-closed-first" if [s for s in case["steps"] if s[0] == "close"][0][1] == "b" else "a-closed-first"),
+                 sample={"steps": case["steps"][:8], "n_steps": len(case["steps"])})
+        for b, m in res:
+            col.violation(b, case, m)
+
+    if "two" in spec:
+        run_given(two_logs_s(), body_two, spec["two"], seed)
+        return col
 
     def body(case: dict[str, Any]) -> None:
         res = check(case)
@@ -343,4 +420,6 @@ def replay(witness: Any) -> list[tuple[str, str]]:
 
 
 def shrink(bucket: str, witness: Any, seed: int) -> Any:
+    if bucket.startswith("C17/two-logs-open"):
+        return shrink_bucket(two_logs_s(), lambda c: {b for b, _ in check(c)}, bucket, seed, max_examples=40)
     return shrink_bucket(case_s(), lambda c: {b for b, _ in check(c)}, bucket, seed, max_examples=400)
